@@ -88,9 +88,34 @@ def decl_of(rec: dict, all_heads_out: bool = True) -> tuple:
 
 
 def pick(items: list, k: int, rng: random.Random) -> list:
+    """k items, stratified by tag: every tag (= side condition / shape class a grid spans) is represented before any tag
+    is drawn a second time; within a tag the choice is random"""
     if len(items) <= k:
         return list(items)
-    return rng.sample(items, k)
+    groups: dict = {}
+    for it in items:
+        key = it.get("tag") if isinstance(it, dict) else None
+        groups.setdefault(key, []).append(it)
+    if len(groups) <= 1:
+        return rng.sample(items, k)
+    pools = list(groups.values())
+    for p in pools:
+        rng.shuffle(p)
+    rng.shuffle(pools)
+    out: list = []
+    depth = 0
+    while len(out) < k:
+        progressed = False
+        for p in pools:
+            if depth < len(p):
+                out.append(p[depth])
+                progressed = True
+                if len(out) >= k:
+                    break
+        if not progressed:
+            break
+        depth += 1
+    return out
 
 
 class Profile:
@@ -155,6 +180,7 @@ class TraitProfile(Profile):
             recs.append({"id": r["id"], "program": r["program"], "in": r.get("input_predicates"), "out": r.get("output_predicates"), "tag": "corpus"})
         for g in self.grids:
             recs.extend(grid(g))
+        recs.extend(r for r in grid("extra") if r.get("trait") == self.trait)
         return recs
 
     def decl(self, rec: dict) -> tuple:
@@ -208,6 +234,7 @@ class C08(TraitProfile):
 class C10(TraitProfile):
     prop, trait, title = "C10", "duplication", "duplication: factored-out literal sets keep their meaning"
     grids = ["duplication"]
+    extra_checks = ["scope"]
     design_ref = "9.10"
     rule = "corpus(test_literal_duplication) + duplication grid + mutants, only duplication; non-trivial = duplication changed the program and an instance with >=1 answer set was compared"
 
@@ -246,7 +273,7 @@ class C16(TraitProfile):
     prop, trait, title = "C16", "projection", "projection: a split rule derives exactly what the unsplit rule derived"
     mode = BIJ
     grids = ["projection"]
-    extra_checks = ["c04"]
+    extra_checks = ["c04", "scope"]
     design_ref = "9.16"
     rule = "corpus(test_projection) + projection grid + mutants, only projection, result also checked for safety; non-trivial = projection changed the program and an instance with >=1 answer set was compared"
 
